@@ -226,6 +226,47 @@ def nnx_optimizer(layout, wi, steps):
     OPT.optax, OPT.jnp = saved
 
 
+def nnx_train_state(layout, steps):
+  """nnx.TrainState.apply_gradients: params = apply_updates(p, U(g,s,p)), state =
+  S(g,s,p), step+1, one update call, old instance intact"""
+  model = Model(layout)
+  graphdef, params, rest = nnx.split(model, nnx.Param, ...)
+  saved = (HLP.optax, HLP.jnp)
+
+  class J:
+    asarray = staticmethod(lambda v: v)
+  HLP.optax, HLP.jnp = _Optax(), J
+  try:
+    tx = UTx()
+    st = nnx.TrainState.create(graphdef, params=params, tx=tx)
+    flat = lambda state: {p: v.value for p, v in nnx.to_flat_state(state)}
+    cur = flat(params)
+    mu = {k: Tm('S0', v) for k, v in cur.items()}
+    if st.step != 0 or flat(st.opt_state['mu']) != mu:
+      return False
+    for k in range(steps):
+      grads = jax.tree_util.tree_map(lambda v: Tm('g', k, v), st.params,
+                                     is_leaf=lambda x: isinstance(x, Tm))
+      old, old_params, old_step = st, flat(st.params), st.step
+      n = len(tx.calls)
+      st = st.apply_gradients(grads)
+      if len(tx.calls) != n + 1 or st is old:
+        return False
+      want = {p: Tm('apply', v, Tm('U', Tm('g', k, v), mu[p], v))
+              for p, v in cur.items()}
+      mu = {p: Tm('S', Tm('g', k, v), mu[p], v) for p, v in cur.items()}
+      cur = want
+      if flat(st.params) != cur or flat(st.opt_state['mu']) != mu:
+        return False
+      if st.step != old_step + 1 or flat(old.params) != old_params:
+        return False
+    # the model object the state was split from is untouched
+    return {p: v.value for p, v in nnx.to_flat_state(nnx.state(model, nnx.Param))
+            } == flat(params)
+  finally:
+    HLP.optax, HLP.jnp = saved
+
+
 # ------------------------------------------------------------ metrics (z3 reals)
 def _partitions(n, k):
   """all ways to cut range(n) into k consecutive non-empty batches"""
@@ -397,6 +438,11 @@ def obligations(tier):
          bounds='3 Variables each Param/BatchStat (8 layouts), 4 wrt filters, '
                 '1..3 steps'),
   ]
+  obs.append(Ob('nnx_train_state', nnx_train_state,
+                dict(layout=I(0, 7), steps=I(1, 3)), split=('layout',), timeout=600,
+                funcs=qualnames(HLP.TrainState.create,
+                                HLP.TrainState.apply_gradients),
+                bounds='8 Variable-type layouts, 1..3 steps'))
   for n in range(1, (4 if quick else 6) + 1):
     for wr in (0, 1):
       obs.append(
